@@ -187,6 +187,12 @@ def directed():
                                  {"op": "sel", "v": "a1", "u": "a0", "rs": [0, 3, 4, 5], "cs": cs0_, "has_cs": True},
                                  {"op": "obs", "u": "a1", "what": "sel", "arg": first_}, {"op": "obs", "u": "a1", "what": "sel", "arg": second_},
                                  {"op": "obs", "u": "a1", "what": "getcol", "arg": 2}, {"op": "obs", "u": "a1", "what": "tolist", "arg": None}], "hazard": False}
+    # the first thing asked of an unread row-and-column selection with equally long rows is its matrix form (or its padded matrix form)
+    for rows_, (rs_, cs_) in (([[1, 2, 3], [4, 5, 6, 7], [8, 9], [10, 11, 12]], (slice(None), slice(0, 2))), ([[1, 2, 3], [4, 5, 6], [7, 8, 9], [10, 11, 12]], ([0, 1, 3, 3], slice(None))),
+                              ([[1, 2], [3, 4, 5], [6, 7], [8, 9, 10, 11], [12, 13]], ([4, 0, 2], slice(None, None, -1))), ([[1, 2, 3], [4], [5, 6, 7], [8, 9, 10]], ([3, 0, 2], slice(0, 3)))):
+        for what_ in ("tonp", "padded"):
+            yield {"steps": [{"op": "init", "v": "a0", "rows": [list(r) for r in rows_]}, {"op": "sel", "v": "a1", "u": "a0", "rs": rs_, "cs": cs_, "has_cs": True},
+                             {"op": "obs", "u": "a1", "what": what_, "arg": None}, {"op": "obs", "u": "a1", "what": "tolist", "arg": None}, {"op": "obs", "u": "a0", "what": "tolist", "arg": None}], "hazard": False}
     # pieces of one array, cut out with different column steps and not yet looked at, joined in one call
     for (sa_, sb_) in ((((slice(None), slice(None, None, 2)), (slice(None), slice(None, None, -1)))), ((slice(None), slice(1, None)), (slice(1, 3), slice(None, None, 2))),
                        ((slice(None), slice(None, None, -2)), (slice(None), slice(None, None, 2))), ((slice(0, 2), slice(None, None, 3)), (slice(2, None), slice(None, None, -1)))):
